@@ -5,3 +5,4 @@ pub mod windows;
 pub mod tok;
 pub mod batch;
 pub mod multigen;
+pub mod pipe;
